@@ -10,6 +10,7 @@ import Just.Model.Unstable
 import Just.Model.Analyzer
 import Just.Model.Listing
 import Just.Model.Imports
+import Just.Model.Eval
 open Lean
 
 namespace Just.Run
@@ -176,3 +177,8 @@ deriving instance FromJson, ToJson for File
 deriving instance ToJson for Err
 deriving instance ToJson for Def
 end Just.Imports
+
+namespace Just.Eval
+deriving instance ToJson for Ev
+deriving instance ToJson for Err
+end Just.Eval
